@@ -12,8 +12,8 @@ import (
 
 type Domain struct {
 	Name string
-	Dims []int                      // size of every dimension
-	Make func(ix []int) *Scenario   // point -> scenario
+	Dims []int                    // size of every dimension
+	Make func(ix []int) *Scenario // point -> scenario
 }
 
 func (d *Domain) Size() int64 {
@@ -100,10 +100,11 @@ func censusStatus(s *SetSpec, pods []PodSpec) {
 }
 
 // PodsDomain: the main per-reconcile domain (C03, C04, C05, C07, C12, C14).
-//   dims: replicas, slot mask, policy, strategy shape, sameRev, statusMode, deleting, pod state per ordinal
+//
+//	dims: replicas, slot mask, policy, strategy shape, sameRev, statusMode, deleting, pod state per ordinal
 func PodsDomain(maxOrd, maxRep, nph int, withDeleting bool) *Domain {
 	nOrd := maxOrd + 1
-	nStrat := nOrd + 1 + 2 // RU+block part 0..nOrd ; RU without block ; OnDelete
+	nStrat := nOrd + 1 + 2 + 2 // RU+block part 0..nOrd ; RU without block ; OnDelete ; OnDelete with a left-over block (partition 0, 1)
 	nPod := 1 + nph*2*3
 	nDel := 1
 	if withDeleting {
@@ -126,8 +127,10 @@ func PodsDomain(maxOrd, maxRep, nph int, withDeleting bool) *Domain {
 			s.Strat, s.RuBlock, s.PartPresent, s.Part = "RollingUpdate", true, true, int32(ix[3])
 		case ix[3] == nOrd+1:
 			s.Strat = "RollingUpdate"
-		default:
+		case ix[3] == nOrd+2:
 			s.Strat = "OnDelete"
+		default: // what a merge patch of only .type leaves behind on a defaulted object
+			s.Strat, s.RuBlock, s.PartPresent, s.Part = "OnDelete", true, true, int32(ix[3]-nOrd-3)
 		}
 		s.Tmpl, s.UpdRev, s.CurRev = "t2", "t2.0", "t1.0"
 		if ix[4] == 1 {
